@@ -29,7 +29,8 @@ def plan(tier):
             "timeout": 600 if tier == "quick" else 2400,
             "require": {"engine_success_compared": 20000, "python_raises_checked": 5000, "keyword_calls_compared": 300,
                         "chains_compared": 1000, "boolop_compared": 2000, "logic_pathway_compared": 3000, "math_pathway_compared": 3000,
-                        "tool_args_compared": 500, "transform_pathway_compared": 200, "string_literal_with_keywords": 300}}
+                        "tool_args_compared": 500, "transform_pathway_compared": 200, "string_literal_with_keywords": 300,
+                        "sessions": 2000, "session_steps": 8000, "session_failed_logic_evaluations": 500}}
 
 
 class _Raised:
@@ -64,11 +65,11 @@ def reference(expr, lower_bools, extra=None):
 
 
 def run_case(ctx, n):
-    from operon_ai.organelles.mitochondria import Mitochondria, MetabolicPathway as MP
+    """One engine per case. Most cases evaluate one generated expression (on 1-2 pathways); every fifth case is a SESSION: the same
+    engine evaluates 3-7 unrelated expressions in a row (failing ones included), so that anything an earlier evaluation leaves
+    behind on the engine, its class or its module would show up as a wrong value / missing failure later."""
+    from operon_ai.organelles.mitochondria import Mitochondria
     rng = ctx.rng(n)
-    mode = rng.choice(["math", "math", "logic", "logic", "auto", "auto", "tool", "transform"])
-    g = AllowedGen(rng, lower_bools=(mode == "logic" or (mode == "auto" and rng.random() < 0.3)))
-    depth = rng.choice([1, 2, 2, 3, 3, 4, 5])
     got_args = []
 
     def probe(*a, **k):
@@ -76,8 +77,33 @@ def run_case(ctx, n):
         return "probe-result"
 
     mito = Mitochondria(silent=True, max_ros=1e12)
+    mito.register_function("probe", probe, "records its arguments")
+    steps = 1
+    if n % 5 == 4:
+        steps = rng.randint(3, 7)
+        ctx.count("sessions")
+    for k in range(steps):
+        if steps > 1:
+            ctx.count("session_steps")
+            if k and rng.random() < 0.3:
+                # an expression that fails part-way on the logic pathway (names true/false involved), then carry on
+                fail = rng.choice(["true and 1/0 > 0", "false or foo", "(true, 1/0)", "not (1/0)", "true and len(5)"])
+                try:
+                    mito.metabolize(fail, rng.choice([None, __import__("operon_ai.organelles.mitochondria", fromlist=["x"]).MetabolicPathway.KREBS_CYCLE]))
+                except BaseException:
+                    pass
+                ctx.count("session_failed_logic_evaluations")
+        one_expression(ctx, n, rng, mito, got_args, in_session=steps > 1)
+
+
+def one_expression(ctx, n, rng, mito, got_args, in_session):
+    from operon_ai.organelles.mitochondria import MetabolicPathway as MP
+    mode = rng.choice(["math", "math", "logic", "logic", "auto", "auto", "tool", "transform"])
+    # in a session the lower-case spellings may also appear where they are NOT names Python knows (math / tool pathway)
+    lower = (mode == "logic" or (mode == "auto" and rng.random() < 0.3) or (in_session and rng.random() < 0.35))
+    g = AllowedGen(rng, lower_bools=lower)
+    depth = rng.choice([1, 2, 2, 3, 3, 4, 5])
     if mode == "tool":
-        mito.register_function("probe", probe, "records its arguments")
         nargs = rng.randint(0, 3)
         argsrc = [g.anyv(depth - 1) for _ in range(nargs)]
         kwsrc = {"k%d" % i: g.anyv(depth - 1) for i in range(rng.randint(0, 2))}
